@@ -432,6 +432,8 @@ func init() {
 		Quick: append([]HarnessRun{
 			{Entry: "VerifC11Driver", Params: map[string]int{"N": 3, "L": 1}, Covers: c11covers, DiffRuns: 60},
 			{Entry: "VerifC11Driver", Params: map[string]int{"N": 2, "L": 2}, Covers: c11covers, DiffRuns: 60},
+			// OPS 793 = insert|clone|iter|commit|branch|get... : insert(1) delete(2) clone(8) branch(256): clones and kept versions that are written through later
+			{Entry: "VerifC11Driver", Params: map[string]int{"N": 4, "L": 1, "OPS": 1 | 2 | 8 | 256}, Covers: []string{"C11.branched", "C11.kept-version-compared", "C11.end"}, DiffRuns: 20},
 		}, fanRuns([]int{4, 5, 16, 17, 48, 49}, 1, nil)...),
 		Thorough: append(append(append([]HarnessRun{
 			{Entry: "VerifC11Driver", Params: map[string]int{"N": 3, "L": 2}, Covers: c11covers, DiffRuns: 100},
@@ -446,10 +448,15 @@ func init() {
 		return HarnessRun{Entry: "VerifC12Watch", Params: map[string]int{"N1": n1, "N2": n2, "L": l, "ROOTONLY": rootonly, "MODIFYWATCH": mw},
 			Covers: []string{"C12.committed", "C12.commit-no-notify", "C12.abandoned", "C12.delete-absent", "C12.end"}, DiffRuns: 30}
 	}
+	// concrete 3-4 key pre-states (inner node with a leaf and 1/2 children below a node4 root), symbolic watches and later ops with keys <= 2..3 bytes
+	preset := func(p, n2 int) HarnessRun {
+		return HarnessRun{Entry: "VerifC12Watch", Params: map[string]int{"PRESET": p, "N1": 0, "N2": n2, "L": 2},
+			Covers: []string{"C12.committed", "C12.commit-no-notify", "C12.abandoned", "C12.end"}, DiffRuns: 20}
+	}
 	reg(&CheckSpec{
 		ID: "C12", PkgDir: "part",
-		Quick:    []HarnessRun{w(1, 2, 1, 0, 0), w(1, 2, 1, 1, 0), w(2, 1, 1, 0, 1), w(1, 1, 2, 0, 0), w(1, 1, 2, 1, 0)},
-		Thorough: []HarnessRun{w(2, 2, 1, 0, 0), w(2, 2, 1, 1, 1), w(2, 1, 2, 0, 1), w(2, 1, 2, 1, 0), w(1, 2, 2, 0, 0)},
+		Quick:    []HarnessRun{w(1, 2, 1, 0, 0), w(1, 2, 1, 1, 0), w(2, 1, 1, 0, 1), w(1, 1, 2, 0, 0), w(1, 1, 2, 1, 0), preset(1, 1), preset(2, 1), preset(4, 1)},
+		Thorough: []HarnessRun{w(2, 2, 1, 0, 0), w(2, 2, 1, 1, 1), w(2, 1, 2, 0, 1), w(2, 1, 2, 1, 0), w(1, 2, 2, 0, 0), preset(1, 2), preset(2, 1), preset(3, 1), preset(4, 2)},
 		Outside:  []string{"outside: trees deeper than the keys of length <= L allow; more than N1 pre-state keys and N2 later operations; channels of write-transaction queries"},
 	})
 }
@@ -539,13 +546,16 @@ func init() {
 	c04 := func(p map[string]int, diff int) HarnessRun {
 		return HarnessRun{Entry: "VerifC04Indexes", Params: p, Covers: []string{"C04.end"}, DiffRuns: diff}
 	}
+	lpmRun := func(p map[string]int) HarnessRun {
+		return HarnessRun{Entry: "VerifC04LPM", Params: p, Covers: []string{"C04.lpm.end", "C04.lpm.two-prefixes"}, DiffRuns: 20}
+	}
 	ks := HarnessRun{Entry: "VerifC04KeySet", Covers: []string{"C04.keyset.end"}, DiffRuns: 30}
 	reg(&CheckSpec{
 		ID: "C04", PkgDir: "statedb",
-		Quick:    []HarnessRun{c04(map[string]int{"N": 1, "L": 1}, 40), c04(map[string]int{"N": 1, "PRE": 1, "NILKEYS": 0, "NTAGSMAX": 1}, 20), ks},
-		Thorough: []HarnessRun{c04(map[string]int{"N": 1, "L": 1}, 40), c04(map[string]int{"N": 1, "PRE": 1, "NILKEYS": 0}, 40), c04(map[string]int{"N": 2, "NTAGSMAX": 1, "NILKEYS": 0, "MIDCOMMIT": 0}, 40), c04(map[string]int{"N": 1, "PRE": 2, "NTAGSMAX": 1}, 20), ks},
+		Quick:    []HarnessRun{c04(map[string]int{"N": 1, "L": 1}, 40), c04(map[string]int{"N": 1, "PRE": 1, "NILKEYS": 0, "NTAGSMAX": 1}, 20), ks, lpmRun(map[string]int{"N": 2, "PRE": 1, "OPSEQ": 1, "NPMIN": 1}), lpmRun(map[string]int{"N": 1, "PRE": 2})},
+		Thorough: []HarnessRun{c04(map[string]int{"N": 1, "L": 1}, 40), c04(map[string]int{"N": 1, "PRE": 1, "NILKEYS": 0}, 40), c04(map[string]int{"N": 2, "NTAGSMAX": 1, "NILKEYS": 0, "MIDCOMMIT": 0}, 40), c04(map[string]int{"N": 1, "PRE": 2, "NTAGSMAX": 1}, 20), ks, lpmRun(map[string]int{"N": 2, "PRE": 1}), lpmRun(map[string]int{"N": 3, "PRE": 1, "OPSEQ": 1, "NPMIN": 1})},
 		Known: []KnownProbe{},
-		Outside: []string{"outside: queries through the LPM index at DB level (the trie semantics are C13's subject, LPM index persistence C01's); AnyTable string-keyed queries; key sets with more than 2 keys; more than N symbolic writes after PRE concrete objects; keys longer than L",
+		Outside: []string{"LPM index at table level: VerifC04LPM (objects with 0..2 prefixes over 8-bit data, lengths {4,8}, possibly masking to the same key; Get/List = longest match, Prefix = covered); AnyTable string-keyed queries; key sets with more than 2 keys; more than N symbolic writes after PRE concrete objects; keys longer than L",
 			"the order assertion is on the stored index keys (bytewise ascending), which by C18 is (index key, primary key) order"},
 	})
 }
@@ -581,8 +591,10 @@ func init() {
 			{Entry: "VerifC05Serial", Covers: []string{"C05.disjoint-commit", "C05.blocked", "C05.newtable", "C05.end"}, NoNative: true},
 			{Entry: "VerifKFCommitDropsNewTable"},
 			{Entry: "VerifC10Threads", Params: map[string]int{"T": 2, "LISTMAX": 3, "KINDMAX": 0}, Covers: []string{"C10.end"}, NoNative: true, Preempt: 1, Deadlock: true},
+			{Entry: "VerifC10Threads", Params: map[string]int{"T": 2, "LISTMAX": 1, "KINDMAX": 2}, Covers: []string{"C10.end"}, NoNative: true, Preempt: 1, Budget2: 3, Deadlock: true},
 		},
 		Thorough: []HarnessRun{
+			{Entry: "VerifC10Threads", Params: map[string]int{"T": 3, "LISTMAX": 1, "KINDMAX": 2}, Covers: []string{"C10.end"}, NoNative: true, Preempt: 1, Budget2: 3, Deadlock: true},
 			{Entry: "VerifC05Serial", Covers: []string{"C05.disjoint-commit", "C05.blocked", "C05.newtable", "C05.end"}, NoNative: true},
 			{Entry: "VerifKFCommitDropsNewTable"},
 			{Entry: "VerifC10Threads", Params: map[string]int{"T": 2, "LISTMAX": 7, "KINDMAX": 0}, Covers: []string{"C10.end"}, NoNative: true, Preempt: 1, Budget2: 3, Deadlock: true},
@@ -613,8 +625,10 @@ func init() {
 			{Entry: "VerifC08Graveyard", Params: map[string]int{"N": 2, "NIT": 1}, Covers: []string{"C08.retained", "C08.collected-something", "C08.closed", "C08.gc-window", "C08.end"}, NoNative: true, Preempt: 1, Deadlock: true},
 			{Entry: "VerifC08Graveyard", Params: map[string]int{"N": 3, "NIT": 0}, Covers: []string{"C08.end"}, NoNative: true, Preempt: 0, Deadlock: true},
 			{Entry: "VerifC08Graveyard", Params: map[string]int{"N": 2, "NIT": 2}, Covers: []string{"C08.end"}, NoNative: true, Preempt: 0, Deadlock: true},
+			{Entry: "VerifC08Graveyard", Params: map[string]int{"N": 2, "NIT": 2, "EARLY": 1}, Covers: []string{"C08.end"}, NoNative: true, Preempt: 0, Deadlock: true},
 		},
 		Thorough: []HarnessRun{
+			{Entry: "VerifC08Graveyard", Params: map[string]int{"N": 3, "NIT": 2, "EARLY": 1}, Covers: []string{"C08.end"}, NoNative: true, Preempt: 0, Deadlock: true},
 			{Entry: "VerifC08Graveyard", Params: map[string]int{"N": 3, "NIT": 1}, Covers: []string{"C08.retained", "C08.collected-something", "C08.closed", "C08.gc-window", "C08.end"}, NoNative: true, Preempt: 1, Deadlock: true},
 			{Entry: "VerifC08Graveyard", Params: map[string]int{"N": 3, "NIT": 2}, Covers: []string{"C08.end"}, NoNative: true, Preempt: 0, Deadlock: true},
 			{Entry: "VerifC08Graveyard", Params: map[string]int{"N": 2, "NIT": 2}, Covers: []string{"C08.end"}, NoNative: true, Preempt: 1, Deadlock: true},
@@ -623,7 +637,7 @@ func init() {
 	})
 	reg(&CheckSpec{
 		ID: "C20", PkgDir: "statedb",
-		Quick:    []HarnessRun{{Entry: "VerifC20WatchSet", Params: map[string]int{"NCH": 2, "TMAX": 3}, Covers: []string{"C20.result", "C20.cancelled", "C20.settled-several", "C20.end"}, NoNative: true, Deadlock: true}},
+		Quick:    []HarnessRun{{Entry: "VerifC20WatchSet", Params: map[string]int{"NCH": 2, "TMAX": 3}, Covers: []string{"C20.result", "C20.cancelled", "C20.settled-several", "C20.second-wait", "C20.end"}, NoNative: true, Deadlock: true}},
 		Thorough: []HarnessRun{{Entry: "VerifC20WatchSet", Params: map[string]int{"NCH": 3, "TMAX": 3}, Covers: []string{"C20.result", "C20.cancelled", "C20.settled-several", "C20.end"}, NoNative: true, Deadlock: true}, {Entry: "VerifC20WatchSet", Params: map[string]int{"NCH": 2, "TMAX": 4}, Covers: []string{"C20.end"}, NoNative: true, Preempt: 1, Deadlock: true}},
 		Outside:  []string{"outside: real timer jitter; more than 3 channels; times beyond TMAX units; virtual discrete-event time (CPU steps take no time, timers fire when every thread is blocked); reflect.Select is modelled by the VM's select (choice among ready cases is explored)"},
 	})
@@ -681,6 +695,7 @@ func init() {
 	reg(&CheckSpec{ID: "C16", PkgDir: "reconciler",
 		Quick: []HarnessRun{
 			{Entry: "VerifC16Retries", Params: map[string]int{"N": 3}, Covers: []string{"C16.popped", "C16.timer-fired", "C16.retries.end"}, NoNative: true, Deadlock: true},
+			{Entry: "VerifC16Retries", Params: map[string]int{"N": 4, "OPS": 3, "NOBJ": 2}, Covers: []string{"C16.popped", "C16.retries.end"}, NoNative: true, Deadlock: true},
 			{Entry: "VerifC16Backoff", Covers: []string{"C16.backoff.end"}, DiffRuns: 2},
 			rounds(16, base), rounds(16, bo)},
 		Thorough: []HarnessRun{
